@@ -3,7 +3,7 @@
    evaluator.rs, the handlers of lsp/references.rs); vocabulary: spec/NavSpec.v. *)
 From Coq Require Import List NArith Arith Bool Permutation.
 Import ListNotations.
-From Mos Require Import model.SymGraph model.Analysis spec.NavSpec proofs.SymGraphProofs proofs.NavProofs proofs.GreedyProofs.
+From Mos Require Import model.SymGraph model.Analysis spec.NavSpec proofs.SymGraphProofs proofs.NavProofs proofs.GreedyProofs proofs.FuelProofs.
 
 (* Within one pass: for every graph, scope, path (dotted, `super`, bubbling outward any number of scopes) the
    occurrence's last identifier is recorded as a usage of exactly the node `query` handed to the evaluator for that
@@ -119,6 +119,19 @@ Theorem C16_greedy_agrees_with_build : forall is_extra g' p,
   forall fuel, query_traversal_steps fuel g' scope p = query_traversal_steps fuel (without is_extra g') scope p.
 Proof. exact greedy_agrees. Qed.
 Print Assumptions C16_greedy_agrees_with_build.
+
+(* Out-of-fuel (the `None` of query_traversal_steps) is excluded by name in the statements above.  It never occurs on
+   a table whose parent chain from the scope ends (depth d) once fuel exceeds d, and more fuel never changes an
+   answer: the theorems do not depend on the fuel the check happens to supply (number of nodes + 2). *)
+Theorem C16_fuel_suffices : forall g p f n d,
+  depth f g n = Some d -> forall fuel, d < fuel -> query_traversal_steps fuel g n p <> None.
+Proof. exact qts_fuel_suffices. Qed.
+Print Assumptions C16_fuel_suffices.
+
+Theorem C16_fuel_irrelevant : forall g p fuel n steps,
+  query_traversal_steps fuel g n p = Some steps -> forall k, query_traversal_steps (fuel + k) g n p = Some steps.
+Proof. exact qts_fuel_mono. Qed.
+Print Assumptions C16_fuel_irrelevant.
 
 (* non-vacuity: a dotted path that needs bubbling (T.U.a looked up two scopes below T's parent) *)
 Example C16_example_bubbling :
